@@ -109,7 +109,7 @@ fn main() {
     rep.sample(json!({"history": format!("{:?}", [Op::Insert(0), Op::Push, Op::Insert(0), Op::EntryOccRemove(0), Op::SetValue(0), Op::Pop]), "meaning": "shadow type 0 in a child scope, remove the shadow through entry(), write the re-exposed outer value, pop"}));
     let _ = op_name;
     exhaustive(&rep, len);
-    let (n, l) = rep.tier.pick((256, 2_000), (4096, 20_000));
+    let (n, l) = rep.tier.pick((1024, 4_000), (4096, 20_000));
     random(&rep, n, l);
     rep.exhaustive(true);
     rep.finish();
